@@ -105,7 +105,7 @@ func main() {
 			os.Exit(2)
 		}
 		fmt.Printf("re-running property %s (tier %s) on the current tree; recorded violations were:\n%s\n", v.Property, v.Tier, b)
-		os.Exit(run(v.Property, v.Tier))
+		os.Exit(run(v.Property, "quick"))
 	default:
 		usage()
 	}
